@@ -733,7 +733,7 @@ pub fn struct_lit_cases(o: &mut Outcome, rng: &mut Rng, thorough: bool) {
     let n = if thorough { 6 } else { 4 };
     for visual in [false, true] {
         for ts in [0usize, 4] {
-            for (mw, slw) in [(10usize, 3usize), (6, 18), (100, 18)] {
+            for (mw, slw) in [(10usize, 3usize), (6, 6), (100, 18)] {
                 let k = mk(visual, ts, mw, slw, true, 2);
                 for w in 0..=n {
                     for b in 0..=2 {
@@ -793,7 +793,8 @@ pub fn struct_lit_cases(o: &mut Outcome, rng: &mut Rng, thorough: bool) {
     // random larger numbers for the shape arithmetic
     for _ in 0..(if thorough { 20000 } else { 2000 }) {
         let visual = rng.chance(1, 2);
-        let (ts, mw, slw) = (rng.below(9), rng.below(140), rng.below(40));
+        let (ts, mw) = (rng.below(9), rng.below(140));
+        let slw = rng.below(mw.min(40) + 1);
         let k = mk(visual, ts, mw, slw, true, 2);
         let s = (rng.below(120), rng.below(5) * 4, rng.below(12), rng.below(30));
         let (pw, sw) = (rng.below(s.0 + 6), rng.below(6));
